@@ -124,12 +124,17 @@ Definition class_of (syms : list symbol) (o : bopts) : outcome mclass :=
 
 (* ---------- SolverMixin.iter_periods with start = end = None on a span of n labels (7cd6323) ----------
    the defaults are POSITIONS: first = lags (IndexError when lags >= n), last = n - 1 - leads (IndexError when negative);
-   range(first, last + 1).  No label is looked up, so the labels need not be distinct and nothing wraps. *)
+   PeriodIter(range(first, last + 1), span[first : last + 1]) yields zip(positions, labels): as many pairs as the label
+   slice has elements (Python slice clipping — only negative lengths make the two differ).  No label is looked up. *)
 Definition default_range (n : nat) (lags leads : Z) : outcome (list Z) :=
   if (n =? 0)%nat then Raise (SolutionError None)
   else if (Z.of_nat n <=? lags)%Z then Raise IndexError
   else if (Z.of_nat n - 1 - leads <? 0)%Z then Raise IndexError
-  else Ret (map (fun i => (lags + Z.of_nat i)%Z) (seq 0 (Z.to_nat (Z.of_nat n - leads - lags)))).
+  else
+    let stop := (Z.of_nat n - leads)%Z in
+    let positions := Z.to_nat (stop - lags) in                                              (* len(range(lags, stop)) *)
+    let labels := Z.to_nat (clip (Z.of_nat n) stop - clip (Z.of_nat n) lags) in             (* len(span[lags:stop]) *)
+    Ret (map (fun i => (lags + Z.of_nat i)%Z) (seq 0 (Nat.min positions labels))).
 
 (* ---------- the declarative side: what the script says ---------- *)
 (* the terms of a statement that become symbols (verbatim terms inside an equation never do), typed as
